@@ -1,0 +1,34 @@
+//!
+//! Verification-only yield points (cargo feature `verif_hooks`, off by default).
+//!
+//! A harness installs a callback with [`set`]; the library calls [`point`] at the places where
+//! expansion touches names, steps and parser positions, so that a controlled scheduler can
+//! interleave concurrent expansions there. Without the feature this module does not exist and
+//! no call is compiled.
+//!
+
+use std::sync::atomic::{AtomicPtr, Ordering};
+
+static HOOK: AtomicPtr<()> = AtomicPtr::new(std::ptr::null_mut());
+
+///
+/// Installs (or removes) the yield-point callback.
+///
+pub fn set(hook: Option<fn(&'static str)>) {
+    HOOK.store(
+        hook.map(|f| f as *mut ()).unwrap_or(std::ptr::null_mut()),
+        Ordering::SeqCst,
+    );
+}
+
+///
+/// A yield point.
+///
+#[inline]
+pub fn point(label: &'static str) {
+    let hook = HOOK.load(Ordering::SeqCst);
+    if !hook.is_null() {
+        let hook: fn(&'static str) = unsafe { std::mem::transmute(hook) };
+        hook(label);
+    }
+}
